@@ -282,6 +282,49 @@ func init() {
 					}
 				}
 			}
+			// read - modify - write - read (what the admin interface does): the edit is what is stored
+			edits := map[string]func(*config.PikeConfig){
+				"cache size":      func(p *config.PikeConfig) { p.Caches[0].Size += 7 },
+				"admin remark":    func(p *config.PikeConfig) { p.Admin.Remark = "edited" },
+				"server min":      func(p *config.PikeConfig) { p.Servers[0].CompressMinLength = "3kb" },
+				"location prefix": func(p *config.PikeConfig) { p.Locations[0].Prefixes = []string{"/edited"} },
+				"upstream server": func(p *config.PikeConfig) {
+					p.Upstreams[0].Servers = append(p.Upstreams[0].Servers, config.UpstreamServerConfig{Addr: "http://127.0.0.1:9", Backup: true})
+				},
+				"compress level":    func(p *config.PikeConfig) { p.Compresses[0].Levels = map[string]uint{"gzip": 2} },
+				"nothing (rewrite)": func(p *config.PikeConfig) {},
+			}
+			for ename, edit := range edits {
+				p := c17Base()
+				if err := config.Write(p); err != nil {
+					c.Violation("roundtrip", "write-error", err.Error(), nil, ename, nil)
+					continue
+				}
+				r1, err := config.Read()
+				if err != nil {
+					c.Violation("roundtrip", "read-error", err.Error(), nil, ename, nil)
+					continue
+				}
+				edit(r1)
+				if r1.Validate() != nil {
+					continue
+				}
+				st.Execs++
+				want := normalize(r1)
+				if err := config.Write(r1); err != nil {
+					c.Violation("roundtrip", "write-error", fmt.Sprintf("edit %s: %v", ename, err), nil, ename, nil)
+					continue
+				}
+				r2, err := config.Read()
+				if err != nil {
+					c.Violation("roundtrip", "read-error", fmt.Sprintf("edit %s: %v", ename, err), nil, ename, nil)
+					continue
+				}
+				if !reflect.DeepEqual(normalize(r2), want) {
+					c.Violation("roundtrip", "edit-lost-on-save", fmt.Sprintf("a configuration read back, edited (%s) and saved reads back as %+v, expected %+v", ename, normalize(r2), want), nil, ename, nil)
+				}
+			}
+			st.Bounds += fmt.Sprintf("; %d read-edit-write-read cycles", len(edits))
 			st.States, st.Transitions, st.Nontrivial = st.Execs, st.Execs, st.Execs
 			st.NOutcomes = int(st.Execs)
 		}
@@ -311,6 +354,12 @@ func init() {
 				mk([]string{"a", "b"}, "b", map[string]string{"l1": "b", "l2": "a"}, []string{"l2", "l1"}, "cp"),
 				mk([]string{"a"}, "a", map[string]string{"l2": "b"}, []string{"l2"}, "cq"),
 				mk([]string{"b"}, "b", map[string]string{"l1": "a", "l2": "b"}, []string{"l1"}, "cp"),
+			}
+			// accepted configurations whose cache names a store that cannot be opened when the configuration is applied
+			for _, u := range []string{c11BadStore, "redis://127.0.0.1:1/?timeout=100ms"} {
+				p := mk([]string{"a"}, "a", map[string]string{"l1": "a"}, []string{"l1"}, "")
+				p.Caches[0].Store = u
+				menu = append(menu, p)
 			}
 			st.Bounds = fmt.Sprintf("%d accepted configurations: each fresh, and every ordered pair as start+reload", len(menu))
 			probe := func(e *env.Env, what string) {
